@@ -577,7 +577,6 @@ func c04Run(w *kernel.Worker, j *c04Job, rep *kernel.Report) (*Fail, error) {
 	return fs.Result(), nil
 }
 
-
 func C04() int {
 	rep := kernel.NewReport("C04", "exploration")
 	rep.Rule = "14 measures × 4 target columns (dense, sparse, numeric-string, mixed) × 5 group-bys (none, dense, sparse, mixed-type, two keys) " +
